@@ -660,8 +660,8 @@ theorem others_spec {cfg : Cfg} (hc : CfgOK cfg) (buf : Bytes) (h : Hdr) (qs : L
     RunOK buf st (2 * (buf.length - st.off) + 1) (others cfg buf h qs st v1 v2 v3) := by
   unfold others readOthers
   dsimp only
-  obtain ⟨i1, i2, i3⟩ := readRecords_spec hc buf (Gen.Incoming.others_count h.nan h.nau h.nad) st
-  generalize readRecords cfg buf (Gen.Incoming.others_count h.nan h.nau h.nad) st = r at i1 i2 i3
+  obtain ⟨i1, i2, i3⟩ := readRecords_spec hc buf (Gen.Incoming.r_loop_count (Gen.Incoming.others_count h.nan h.nau h.nad)) st
+  generalize readRecords cfg buf (Gen.Incoming.r_loop_count (Gen.Incoming.others_count h.nan h.nau h.nad)) st = r at i1 i2 i3
   obtain ⟨st', rs, e⟩ := r
   simp only at i1 i2 i3
   cases e with
@@ -694,8 +694,8 @@ theorem parseWith_spec {cfg : Cfg} (hc : CfgOK cfg) (buf : Bytes) :
     exact RunOK.prepend heff1 (others_spec hc buf hd [] st1 _ _ _ (by simp [QShort])) (by omega)
   | none =>
     dsimp only
-    obtain ⟨q1, q2, q3⟩ := readQuestions_spec hc buf hd.nq st1
-    generalize readQuestions cfg buf hd.nq st1 = qr at q1 q2 q3
+    obtain ⟨q1, q2, q3⟩ := readQuestions_spec hc buf (Gen.Incoming.q_loop_count hd.nq) st1
+    generalize readQuestions cfg buf (Gen.Incoming.q_loop_count hd.nq) st1 = qr at q1 q2 q3
     obtain ⟨st2, qs, e⟩ := qr
     simp only at q1 q2 q3
     have heff2 := heff1.trans q1
